@@ -245,7 +245,9 @@ pub fn s1(property: &str, scenario: &str, seed: u64, o: &S1Opts) -> Plan {
             hash_seed: mix(seed ^ 0x4a5),
             hash_per_map: c.chance(&[48], 300_000),
             rng_seed: mix(seed ^ 0x77),
-            clock_bump_us: 0,
+            // in one run of ten every clock read inside a call returns a later instant than the one before
+            clock_bump_us: if c.chance(&[49], 100_000) { *c.pick(&[50], &[1u64, 5, 20]) } else { 0 },
+            variable_size_input: false,
         },
         nodes,
         links,
@@ -344,6 +346,7 @@ pub fn synctest(property: &str, seed: u64, faulty: bool, invalid: bool) -> Plan 
             hash_per_map: c.chance(&[12], 500_000),
             rng_seed: mix(seed ^ 0x77),
             clock_bump_us: 0,
+            variable_size_input: false,
         },
         nodes: Vec::new(),
         links: Vec::new(),
@@ -493,6 +496,7 @@ fn c05_base_plan(property: &str, seed: u64, b: (u8, usize, usize, bool)) -> Plan
             hash_per_map: false,
             rng_seed: 11,
             clock_bump_us: 0,
+            variable_size_input: false,
         },
         nodes,
         links,
@@ -818,6 +822,7 @@ fn two_peer_base(property: &str, scenario: &str, seed: u64, c: &Ch, allow_specta
             hash_per_map: c.chance(&[118], 300_000),
             rng_seed: mix(seed ^ 0x77),
             clock_bump_us: 0,
+            variable_size_input: false,
         },
         nodes,
         links,
@@ -1047,9 +1052,9 @@ pub fn c08_runs(tier: &str) -> u64 {
 
 fn c08_parts(tier: &str) -> (u64, u64, u64) {
     if tier == "thorough" {
-        (crate::sweep::UPTO3.div_ceil(SWEEP_CHUNK), 2000, 150_000)
+        (crate::sweep::UPTO3.div_ceil(SWEEP_CHUNK), 2000, 300_000)
     } else {
-        (crate::sweep::UPTO2.div_ceil(SWEEP_CHUNK) + 64, 200, 6000)
+        (crate::sweep::UPTO2.div_ceil(SWEEP_CHUNK) + 64, 200, 12_000)
     }
 }
 
@@ -1482,6 +1487,7 @@ pub fn c15(property: &str, seed: u64, index: u64) -> Plan {
             hash_per_map: false,
             rng_seed: mix(seed ^ 0x77),
             clock_bump_us: 0,
+            variable_size_input: false,
         },
         nodes,
         links,
